@@ -151,6 +151,44 @@ for s_i in range(nsetups):
                                   "views": len(views)}})
 
 # ---------------------------------------------------------------------------
+# MANY scatterer positions (an image-sized set: numscat x numtimetraces above 2^18 angle pairs in one evaluation of the
+# scattering functions), direct views: P_ij(view) = P_ji(reciprocal view)
+# ---------------------------------------------------------------------------
+for t_i in range(1 if Q else 3):
+    numel_ = 24
+    numscat_ = int(rng.integers(470, 560))
+    setup = arimgen.immersion_setup(rng, max_refl=0, wall_points=90, numelements=numel_, numscat=numscat_)
+    views, block, probe, freq = setup["views"], setup["block"], setup["probe"], setup["freq"]
+    vl, vt = block.longitudinal_vel, block.transverse_vel
+    tx, rx = arim.ut.fmc(numel_)
+    rw = bim.ray_weights_for_views(views, freq, 0.5e-3)
+    for sname, scattering in (("sdh", scat.SdhScat(float(rng.uniform(0.2e-3, 1.0e-3)), vl, vt).as_angles_funcs(freq)),
+                              ("point", scat.PointSourceScat(vl, vt).as_angles_funcs(freq))):
+        amps = {vn: np.asarray(model.model_amplitudes_factory(tx, rx, v, rw, scattering)[...]) for vn, v in views.items()}
+        scale = max(float(np.nanmax(np.abs(a))) if np.isfinite(a).any() else 0.0 for a in amps.values()) or 1.0
+        for vn, a in amps.items():
+            rvn = arim.ut.reciprocal_viewname(vn)
+            A = a.reshape(a.shape[0], numel_, numel_)
+            Bt = np.transpose(amps[rvn].reshape(a.shape[0], numel_, numel_), (0, 2, 1))
+            ok_mask = np.isfinite(A) & np.isfinite(Bt)
+            if not ok_mask.any():
+                continue
+            diff = np.where(ok_mask, np.abs(A - Bt), 0.0)
+            res = float(np.max(diff) / scale)
+            evaluations += A.size
+            nontrivial.add(("rec-many", t_i, vn, sname))
+            chk.count(scatterer=sname + "-many-positions")
+            if not (res <= RTOL):
+                g_, i, j = np.unravel_index(int(np.argmax(diff)), A.shape)
+                chk.violation(f"reciprocity-many:{sname}", f"P_ij({vn}) != P_ji({rvn}) with {numscat_} scatterer positions x {len(tx)} timetraces "
+                              f"(scatterer kind '{sname}')",
+                              {"view": vn, "reciprocal_view": rvn, "scatterer": sname, "i": int(i), "j": int(j), "grid_point": int(g_),
+                               "P_ij": A[g_, i, j], "P_ji_reciprocal": Bt[g_, i, j], "relative_residual": res, "numscat": numscat_,
+                               "numelements": numel_, "block": [block.density, vl, vt], "frequency": freq,
+                               "how": "arimgen.immersion_setup(rng, max_refl=0, wall_points=90, numelements=24, numscat=numscat); seed and tier replay it"})
+                break
+
+# ---------------------------------------------------------------------------
 # the public pipeline scat_unshifted_transfer_functions (precomputed scattering matrices or
 # functions), with a HISTORY on the scatterer object: first a subset of the views, then all
 # ---------------------------------------------------------------------------
